@@ -187,7 +187,7 @@ class Check:
                 have.add(frozenset(a.id for a in o.assume))
         seen = set()
         for o in list(self.obls):
-            if o.kind != 'forall' or o.verdict is not None or not o.assume:
+            if o.kind != 'forall' or o.verdict is not None or not o.assume or o.meta.get('no_auto_reach'):
                 continue
             key = frozenset(a.id for a in o.assume)
             if key in seen or key in have:
